@@ -22,6 +22,8 @@ func main() {
 	workers := flag.Int("j", 8, "workers")
 	preempt := flag.Int("preempt", -1, "preemption bound (-1 cooperative)")
 	maxlevel := flag.Int("maxlevel", 1, "max consecutive coin successes")
+	dev := flag.Int("dev", -1, "deviation budget at non-preemptive points (-1 unlimited)")
+	named := flag.Bool("named", false, "preempt only between harness-named goroutines")
 	schedfree := flag.Bool("schedfree", false, "free scheduling choice at blocking points")
 	maxpaths := flag.Int("maxpaths", 0, "stop after n paths")
 	solver := flag.String("solver", "z3", "solver")
@@ -39,7 +41,7 @@ func main() {
 	if *run != "" {
 		parts := strings.SplitN(*run, ":", 2)
 		cfg := &symx.Config{Entry: parts[1], Bounds: map[string]int{}, MaxInstr: 5_000_000, LoopBudget: 2000, Solver: *solver,
-			TimeoutMs: 60000, Workers: *workers, Preempt: *preempt, MaxLevel: *maxlevel, StopOnFirst: !*all, MaxPaths: *maxpaths, NumCPU: 2, SchedFree: *schedfree}
+			TimeoutMs: 60000, Workers: *workers, Preempt: *preempt, MaxLevel: *maxlevel, StopOnFirst: !*all, MaxPaths: *maxpaths, NumCPU: 2, SchedFree: *schedfree, PreemptNamed: *named, Deviations: *dev}
 		for _, kv := range strings.Split(*bounds, ",") {
 			if kv == "" {
 				continue
